@@ -247,10 +247,14 @@ fn extract_with_config_batched<P: AsRef<Path>>(
 ) -> Result<Vec<(String, Result<Vec<u8>>)>> {
     let archive = ParallelArchive::open(archive_path)?;
 
-    // Calculate appropriate batch size based on file count and available threads
+    // Calculate appropriate batch size based on file count and available threads.
+    // `Some(0)` means "let rayon choose" (that is how the pool below is built from it),
+    // so it counts as the default here as well instead of becoming a zero divisor.
     let num_threads = config
         .num_threads
-        .unwrap_or_else(rayon::current_num_threads);
+        .filter(|&threads| threads > 0)
+        .unwrap_or_else(rayon::current_num_threads)
+        .max(1);
     let effective_batch_size = if filenames.len() > 5000 {
         // For very large extractions, use larger batches to reduce overhead
         std::cmp::max(config.batch_size, filenames.len() / (num_threads * 2))
